@@ -15,7 +15,8 @@ META = {
             "rejected without changing the state; the state invariant (ordered, VALID in ground state, nothing pending) holds after ALL "
             "histories; one resize phase yields a permutation of added ++ (old minus marked); const and non-const search spellings agree.  "
             "Literals (search start values, the no-entries test, seqNo_(0), renumbering from 0) are re-read from the source into "
-            "coq/Params_gen.v.  The model is tied to dune/common/parallel/indexset.hh on every run by running "
+            "coq/Params_gen.v.  Assignment onto a target that holds other pairs / an unfinished resize phase gives exactly the source for all "
+            "targets and later histories (C03_assign_*); local numbers up to 2^64-1 and long long extremes are run.  The model is tied to dune/common/parallel/indexset.hh on every run by running "
             "the extracted model, the extracted spec and the C++ class on identical histories.",
     "note": "Trusted: Coq kernel, extraction, OCaml driver, C++ harness, g++; std::sort (modelled by insertion sort; equal keys in one "
             "batch are not generated unless identical); ArrayList = list (C11's refinement theorem); seqNo_ int overflow not modelled.",
@@ -27,8 +28,11 @@ SRC = os.path.join(V.VERIF, "harness/C03/impl.cc")
 OPNAME = {"B": "beginResize", "A": "add", "D": "markAsDeleted", "E": "endResize", "R": "renumberLocal", "X": "exists", "T": "at",
           "G": "operator[]", "S": "size", "Q": "seqNo", "M": "state", "I": "iterate", "V": "reverse", "W": "reverse-sized",
           "a": "add(global)", "U": "setLocal", "Z": "set-equality", "K": "pair-comparison", "Y": "lookup-operator[]", "J": "lookup-iterate",
-          "C": "copy-move-swap", "r": "add(aliasing)", "z": "set-equality-other-global-type"}
+          "C": "copy-move-swap", "r": "add(aliasing)", "z": "set-equality-other-global-type", "c": "assign-onto-used-target"}
 INT_MIN, INT_MAX = -2**31, 2**31 - 1
+LL_MIN, LL_MAX = -2**63, 2**63 - 1
+BIG_LOCALS = [2**31 - 1, 2**31, 2**31 + 1, 2**32 - 1, 2**32, 2**32 + 1, 2**62, 2**63 - 1, 2**63, 2**63 + 1, 2**64 - 1]
+TABLE_MAX = 4096          # reverse-lookup tables (size = largest local number + 1) are only built below this
 
 
 # ----------------------------------------------------------------------------- generator
@@ -59,6 +63,17 @@ class Sim:
         self.ops.append("a:%d" % g)
         if self.rz or self.nd: self.new.append([g, 0, 0, 0, False])
 
+    def grange(self):
+        return (LL_MIN, LL_MAX) if self.variant == "L" else (INT_MIN, INT_MAX)
+
+    def table_ok(self):
+        return all(p[1] <= TABLE_MAX for p in self.set)
+
+    def assign(self, w):
+        """audit 2 (A): the set is copy- (w even) / move- (w odd) assigned to a target in configuration w//2 that holds other pairs,
+        another seqNo, an unfinished resize phase or emptied lists; the history continues on the target.  No change of the content."""
+        self.ops.append("c:%d" % w)
+
     def setlocal(self, g, l):
         self.ops.append("U:%d:%d" % (g, l))
         for p in self.set:
@@ -69,12 +84,13 @@ class Sim:
         """audit round: the other public access paths (copy, lookup-set forwarding, comparisons, set equality, write through at())"""
         o = self.ops
         n = len(self.set)
-        o.append(rng.choice(["C", "J", "C", "J"]))
+        gmax = self.grange()[1]
+        o.append(rng.choice(["C", "J", "C", "J"]) if self.table_ok() else "C")
         if n:
             g = rng.choice(self.set)[0]
-            o.append("Y:%d" % g)
+            if self.table_ok(): o.append("Y:%d" % g)
             i, j = rng.randrange(n), rng.randrange(n)
-            gg = rng.choice([self.set[i][0], self.set[j][0], self.set[i][0] + 1 if self.set[i][0] < INT_MAX else self.set[i][0]])
+            gg = rng.choice([self.set[i][0], self.set[j][0], self.set[i][0] + 1 if self.set[i][0] < gmax else self.set[i][0]])
             o.append("K:%d:%d:%d" % (i, j, gg))
         keys = [(p[0], p[2]) for p in self.set]
         if len(set(keys)) == len(keys):                  # rebuilt copy keeps the order only for distinct keys (std::sort)
@@ -120,15 +136,16 @@ class Sim:
             keep = set(rng.sample(gs, maxg - 2)) | {gs[0], gs[-1]}
             gs = [g for g in gs if g in keep]
         cand = set()
+        gmin, gmax = self.grange()
         for g in gs:
-            cand.update(x for x in (g - 1, g, g + 1) if INT_MIN <= x <= INT_MAX)
+            cand.update(x for x in (g - 1, g, g + 1) if gmin <= x <= gmax)
         if not self.set:
             cand.update([0, 7])
         present = {p[0] for p in self.set}
         for g in sorted(cand):
             o.append("X:%d" % g); o.append("T:%d" % g)
             if g in present: o.append("G:%d" % g)
-        if full:
+        if full and self.table_ok():
             locs = [p[1] for p in self.set]
             mx = max(locs) if locs else 0
             ls = list(range(mx + 1))
@@ -195,9 +212,14 @@ def gen_random(ctx, rng, chk, inject):
     if rng.random() < 0.2:
         s.variant = "L"; nattr = 1                       # long long globals, Dune::LocalIndex, generic comparator
         if rng.random() < 0.3: pool = pool + [-2**61, 2**61, 2**40 + 1, -2**33]
+        if rng.random() < 0.3: pool = pool + [LL_MIN, LL_MIN + 1, LL_MAX - 1, LL_MAX, 2**62, -2**62 - 1]   # audit 2 (D): the extremes of the type
     elif rng.random() < 0.12:
         s.variant = "S"                                  # class-type global index (comparison operators only), ParallelLocalIndex<int>
     distinct_globals = rng.random() < 0.6
+    biglocal = rng.random() < 0.15                       # audit 2 (C/D): local numbers at the 2^31 / 2^32 / 2^63 / 2^64 boundaries
+    assigning = (chk or not inject) and rng.random() < 0.3     # audit 2 (A): the set is assigned to used targets along the way
+    def maybe_assign():
+        if assigning and rng.random() < 0.25: s.assign(rng.randrange(8))
     rounds = rng.randrange(1, 7)
     small = rng.random() < 0.35                          # keep the set near sizes 0..3
     def wrong():
@@ -237,6 +259,7 @@ def gen_random(ctx, rng, chk, inject):
                     if (g, a) in s.keys_in_batch(): continue
                     if distinct_globals and (any(p[0] == g for p in s.new) or any(p[0] == g and not p[4] for p in s.set)): continue
                     loc = rng.randrange(0, 60) if rng.random() < 0.3 else None
+                    if biglocal and rng.random() < 0.5: loc = rng.choice(BIG_LOCALS)
                     if not s.nd and s.set and rng.random() < 0.07:
                         k = rng.randrange(len(s.set)); q = s.set[k]
                         if not q[4] and (q[0], q[2]) not in s.keys_in_batch(): s.readd(k); break
@@ -244,10 +267,15 @@ def gen_random(ctx, rng, chk, inject):
                     else: s.add(g, a, loc=loc, pub=rng.randrange(2))
                     break
             wrong()
+            maybe_assign()
         if rng.random() < 0.15:
             s.probes(rng, full=False)                    # lookups while in RESIZE state (deleted flags visible)
+            keys_ = [(p[0], p[2]) for p in s.set]
+            if not s.nd and len(set(keys_)) == len(keys_): s.ops.append("Z:0")     # operator== with the left side in RESIZE state (marks, pending adds)
+        maybe_assign()
         s.end()
         wrong()
+        maybe_assign()
         s.probes(rng)
         # the audit-round ops only in histories the property covers (not in the NDEBUG + wrong-state stream, where the
         # python steering mirror is only approximate and the property constrains nothing)
@@ -255,7 +283,7 @@ def gen_random(ctx, rng, chk, inject):
             s.extras(rng)
         if not s.nd and rng.random() < 0.3:
             g = rng.choice(s.set)[0] if s.set and rng.random() < 0.8 else rng.choice(pool)
-            s.setlocal(g, rng.randrange(0, 70)); s.probes(rng)
+            s.setlocal(g, rng.choice([x for x in BIG_LOCALS if x % 2]) if biglocal and rng.random() < 0.5 else rng.randrange(0, 70)); s.probes(rng)
         if rng.random() < 0.4:
             s.renumber(); s.probes(rng)
     return s.line(rng.choice([2, 100]) if s.variant == "S" else rng.choice(NS), chk)
@@ -283,7 +311,48 @@ def gen_boundary(ctx, cases):
                 s.begin()
                 for k in range(len(s.set) - 1): s.delete(k)
                 s.end(); s.probes(rr); s.renumber(); s.probes(rr)
+                # audit 2 (A): the set emptied by deletion (lists with consumed chunks), then refilled across a chunk boundary
+                s.begin()
+                for k in range(len(s.set)): s.delete(k)
+                s.end(); s.probes(rr)
+                s.begin()
+                for i in range(cs + 1): s.add(7 * i - 3, 0)
+                s.end(); s.probes(rr)
                 cases.append(s.line(n, 1 if cnt % 4 else 0)); cnt += 1
+    return cnt
+
+
+def gen_assign(ctx, cases):
+    """audit 2 (A), directed: every target configuration x copy/move (c:0..7) x source state (empty, filled ground state, emptied,
+    mid-phase with pending adds and deletion marks) x chunk size; afterwards the phase is finished on the TARGET, probed, and one more
+    phase (add + delete) is run on it"""
+    import random as _r
+    cnt = 0
+    for w in range(8):
+        for src in range(4):
+            for n, variant in ((1, ""), (3, ""), (100, ""), (2, "L"), (2, "S")):
+                rr = _r.Random(100 * w + 10 * src + n)
+                s = Sim(); s.variant = variant
+                if src >= 1:
+                    s.begin()
+                    for i in range(5): s.add(10 * i + 1, i % 2)
+                    s.end()
+                if src == 2:
+                    s.begin()
+                    for k in range(5): s.delete(k)
+                    s.end()
+                if src == 3:
+                    s.begin(); s.delete(1); s.add(25, 1); s.delete(4); s.add(-9, 0)
+                s.assign(w)
+                s.ops += ["M", "Q", "S", "I"]
+                if src == 3: s.add(77, 0); s.end()
+                s.probes(rr); s.extras(rr)
+                s.begin()
+                if s.set: s.delete(0)
+                s.add(1005, 0); s.add(-80, 1); s.add(12, 0)
+                s.assign((w + 3) % 8)
+                s.end(); s.probes(rr); s.renumber(); s.probes(rr)
+                cases.append(s.line(n, 1 if cnt % 3 else 0)); cnt += 1
     return cnt
 
 
@@ -295,6 +364,7 @@ def gen(ctx):
     ncorp = len(cases)
     nex = gen_exhaustive(ctx, cases)
     nbd = gen_boundary(ctx, cases)
+    nas = gen_assign(ctx, cases)
     rng = ctx.rng("gen")
     nr = 2500 if ctx.quick else 40000
     for i in range(nr):
@@ -303,7 +373,7 @@ def gen(ctx):
         cases.append(gen_random(ctx, rng, 0, inject=False))       # NDEBUG build, well-formed histories
     for i in range(nr // 10):
         cases.append(gen_random(ctx, rng, 0, inject=True))        # NDEBUG build, wrong-state calls: model only
-    return cases, {"corpus": ncorp, "exhaustive": nex, "chunk_boundary_directed": nbd, "random_checked": nr, "random_ndebug": nr // 3, "random_ndebug_wrongstate": nr // 10}
+    return cases, {"corpus": ncorp, "exhaustive": nex, "chunk_boundary_directed": nbd, "assign_onto_used_target_directed": nas, "random_checked": nr, "random_ndebug": nr // 3, "random_ndebug_wrongstate": nr // 10}
 
 
 # ----------------------------------------------------------------------------- judging
